@@ -174,7 +174,18 @@ def check_program(env, prog, steps, hostile, label, ndata):
     valid = gen_data.valid_data(t, cx0, rng, 3)
     for kw in chosen:
         harness.reset_all()
-        o = harness.call(deserialization_method, prog.T, **kw)
+        # the constructor-bypassing compilation (global setting read at compile time) for a quarter of the option sets
+        odc = rng.random() < 0.25
+        if odc:
+            from apischema import settings
+            settings.deserialization.override_dataclass_constructors = True
+            env.count("override_dataclass_constructors_option_sets")
+        try:
+            o = harness.call(deserialization_method, prog.T, **kw)
+        finally:
+            if odc:
+                settings.deserialization.override_dataclass_constructors = False
+        kw = dict(kw, override_dataclass_constructors=odc)
         if o.kind != "ok":
             env.violation({"kind": "compile", "exc": o.exc or "ValidationError"}, {"program": prog.source, "options": kw, "outcome": o.brief()})
             continue
@@ -366,7 +377,7 @@ def run(env):
         if env.out_of_time():
             env.notes.append("time cap reached")
             break
-        g = gen_types.Gen(rng, max_depth=rng.choice([2, 3, 4]))
+        g = gen_types.Gen(rng, max_depth=rng.choice([2, 3, 4]), pattern_overlap=True)
         k = rng.random()
         if k < 0.2:
             t = rng.choice(small)(g)
